@@ -19,4 +19,10 @@ OnSurface(nrm, c, p) == Dot(nrm, p) = c
 (* the sensor-facing unit normal of the surface nrm . p = c (times den) *)
 Facing(nrm, c) == IF c > 0 THEN Neg(nrm) ELSE nrm
 NormalOK(out, nrm, c) == out = Facing(nrm, c)
+(* Generic clouds: the normal against the direction of least variance of the k nearest neighbours and the curvature against the   *)
+(* share of that variance, both from an independent reference (exhaustive search, double-precision eigen-decomposition), where the *)
+(* neighbour set and the smallest eigenvalue are clear-cut (relative gap >= 0.05).  res = << sine of the angle between the two      *)
+(* directions, curvature difference >> in 1e-9 units; the two compute overloads must return the same normals.                       *)
+LeastVarBound(isFloat) == IF isFloat THEN 2000000 ELSE 1000
+LeastVarOK(t) == t.sameOverloads /\ \A i \in 1..2 : t.res[i] <= LeastVarBound(t.float = 1)
 =============================================================================
